@@ -908,7 +908,7 @@ fn main() {
     let pids: Vec<i32> = sleepers.0.iter().map(|c| c.id() as i32).collect();
     drive(|case: &Case, out: &mut Out| {
         let mut last = None;
-        for n in 0..4 {
+        for n in 0..6 {
             let (o, ok) = attempt(case, &pids, n);
             last = Some(o);
             if ok {
